@@ -62,6 +62,11 @@ CHECKS = {
     technique="z3 value equivalence of each expression with the expression re-imported from its printed LaTeX (symbolic tensor entries, all target assignments); tensor kinds and re-printed text compared directly; operator expressions structurally",
     text="For generated expressions covering every printable object kind and for library results (energies, amplitudes, wavefunctions, precursor states, matrix blocks, densities, symbolic-denominator and real variants) the value conjunct of the round trip is decided by z3, kinds and text by direct comparison.",
     note="Only the value conjunct is a solver verdict (kinds/text have no quantifier left). Default tensor-name configuration; bra-ket symmetries only through Expr assumptions (object-level flags are not printed)."),
+ "C10": dict(
+    level=TV, design="2/C10", engine="tvsmt",
+    technique="SMT translation validation: every (permutation product, +-1) reported by the real Term.symmetry/Obj.symmetry is checked by z3 against the term with the composed permutation applied independently; the parts returned by exploit_perm_sym / sort.by_* / filter_tensor are re-assembled and compared with the input by z3 (symbolic tensor entries, all target assignments); filing keys recomputed directly",
+    text="Generated terms (1-3 tensors, denominators, exponents, spin) in the three index modes and per object; expressions symmetrised over random subgroups for exploit_perm_sym with all target-string / bra-ket / result-tensor options; five sorters and filter_tensor.",
+    note="Bounded generator and models (<=3o3v). Permutations are applied by sympy's simultaneous substitution of the composed map, not by adcgen's permute. Cases in which Term.symmetry does not finish within the per-case limit give no verdict (counted in evidence)."),
 }
 NA_REASON = "check not built yet in this round (planned, see DESIGN.md section 2)"
 
